@@ -79,6 +79,10 @@ def category(op, lk, ldt, rk, rdt, npr, ptr) -> str:
     if any(k.startswith("np_") for k in kinds):
         return f"dtype:numpy-scalar:{op}"
     if rk == "-":
+        if op in ("sum", "prod", "amax", "amin"):
+            return f"dtype:reduction-keeps-operand-dtype:{op}"
+        if op in ("all", "any"):
+            return f"dtype:all-any-keep-operand-dtype:{op}"
         return f"dtype:unary:{op}:{np.dtype(ldt).kind}"
     return f"dtype:array-array:{op}"
 
@@ -108,15 +112,26 @@ def rows():
 def render(rs, known_cats) -> str:
     lines = ["/- GENERATED by harness/extract/dtypes.py from the live pytato and the installed NumPy on every run.",
              "   (op, lhs kind, lhs dtype, rhs kind, rhs dtype, NumPy result, pytato result, deviation category)",
-             "   results: a dtype name, or !ExceptionClass -/",
+             "   results: a dtype name, or !ExceptionClass.  Rows are split into chunks (elaborator recursion depth). -/",
+             "set_option maxRecDepth 20000",
              "namespace PtGen", "",
-             "def dtypeRows : List (String × String × String × String × String × String × String × String) := ["]
-    body = []
-    for op, lk, ldt, rk, rdt, npr, ptr in rs:
-        cat = "" if npr == ptr else category(op, lk, ldt, rk, rdt, npr, ptr)
-        body.append(f'  ("{op}", "{lk}", "{ldt}", "{rk}", "{rdt}", "{npr}", "{ptr}", "{cat}")')
-    lines.append(",\n".join(body))
-    lines += ["]", "",
+             "abbrev DtypeRow := String × String × String × String × String × String × String × String", ""]
+    chunk = 300
+    names = []
+    for ci in range(0, len(rs), chunk):
+        nm = f"dtypeRows{ci // chunk}"
+        names.append(nm)
+        body = []
+        for op, lk, ldt, rk, rdt, npr, ptr in rs[ci:ci + chunk]:
+            cat = "" if npr == ptr else category(op, lk, ldt, rk, rdt, npr, ptr)
+            body.append(f'  ("{op}", "{lk}", "{ldt}", "{rk}", "{rdt}", "{npr}", "{ptr}", "{cat}")')
+        lines.append(f"def {nm} : List DtypeRow := [")
+        lines.append(",\n".join(body))
+        lines.append("]")
+        lines.append("")
+    lines.append("def dtypeChunks : List (List DtypeRow) := [" + ", ".join(names) + "]")
+    lines.append("def dtypeRows : List DtypeRow := dtypeChunks.flatten")
+    lines += ["",
               "/-- deviation categories listed in the committed known_findings.json (property C03) -/",
               "def knownDtypeCategories : List String := ["
               + ", ".join(f'"{c}"' for c in sorted(known_cats)) + "]", "", "end PtGen", ""]
